@@ -342,6 +342,41 @@ fn drive(id: &str, tier: Tier, seed: u64) -> i32 {
             }
         }
     }
+    // Sanitizer leg (thorough tier only): the same worker code, built with a compiler sanitizer.
+    if tier == Tier::Thorough {
+        if let Some((kind, nshards_leg)) = checks::sanitizer_leg(id) {
+            let out = work.join(format!("{kind}.json"));
+            let log = work.join(format!("{kind}.log"));
+            let st = Command::new("/verif/sanitizer_leg.sh")
+                .args([kind, id, &seed.to_string()])
+                .arg(&out)
+                .arg(&log)
+                .env("VERIF_LEG_NSHARDS", nshards_leg.to_string())
+                .stdin(Stdio::null())
+                .status();
+            match st.ok().and_then(|s| s.code()) {
+                Some(0) => {
+                    let leg = load_shard(&out).unwrap_or_default();
+                    merged.count(&format!("sanitizer.{kind}.cases_run"), leg.evaluations);
+                    merged.count(&format!("sanitizer.{kind}.reports"), 0);
+                    merged.count(&format!("sanitizer.{kind}.violations_seen_by_monitor"), leg.violations.len() as u64);
+                    merged.violations.extend(leg.violations);
+                }
+                Some(66) => {
+                    let text = fs::read_to_string(&log).unwrap_or_default();
+                    let summary = text.lines().find(|l| l.starts_with("SUMMARY:")).unwrap_or("sanitizer report").to_string();
+                    let site: String = summary.split_whitespace().skip(2).take(3).collect::<Vec<_>>().join("_");
+                    let tail: Vec<&str> = text.lines().collect();
+                    merged.violations.push(Violation {
+                        sig: format!("{kind}-report:{site}"),
+                        desc: format!("{summary} (log {})", log.display()),
+                        replay: json!({"sanitizer": kind, "log_tail": tail[tail.len().saturating_sub(60)..].join("\n")}),
+                    });
+                }
+                other => run_inconclusive.push(format!("sanitizer leg {kind} could not run (status {other:?}); see {}", log.display())),
+            }
+        }
+    }
     let wall = t0.elapsed().as_secs_f64();
     let summary = report::finalize(&spec, tier, seed, merged, wall, run_inconclusive, known_replayed);
     summary.exit_code
